@@ -904,6 +904,16 @@ func reachFrom(b *ssa.BasicBlock) map[*ssa.BasicBlock]bool {
 	return r
 }
 
+// isPureStd: standard-library functions without side effects whose result is a function of their arguments' values.
+func isPureStd(name string) bool {
+	for _, pre := range []string{"bytes.", "(encoding/binary.", "math/bits.", "strings.", "unicode.", "unicode/utf8.", "unicode/utf16."} {
+		if strings.HasPrefix(name, pre) {
+			return true
+		}
+	}
+	return false
+}
+
 func (c *ctx) isPure(f *ssa.Function) bool {
 	if p, ok := c.pure[f]; ok {
 		return p
@@ -940,7 +950,7 @@ func (c *ctx) isPure(f *ssa.Function) bool {
 					if !c.isPure(cal) {
 						ok = false
 					}
-				} else if !strings.HasPrefix(cal.String(), "bytes.") && !strings.HasPrefix(cal.String(), "(encoding/binary.") {
+				} else if !isPureStd(cal.String()) {
 					ok = false
 				}
 			}
